@@ -10,6 +10,9 @@ def dispatch(prop):
     if prop in ("C01", "C05", "C13", "C03", "C12"):
         from . import props_broker
         return getattr(props_broker, prop.lower())
+    if prop in ("C04", "C08", "C15", "C17"):
+        from . import props_env
+        return getattr(props_env, prop.lower())
     raise SystemExit("no check registered for %s" % prop)
 
 
